@@ -72,11 +72,126 @@ Definition cls_refdef (L : list srcline) (f : fail) : bool :=
 Definition cls_bom (L : list srcline) (f : fail) : bool :=
   src_has_bom L && ((sl (fsp f) =? 1) || (el (fsp f) =? 1)).
 
+(* ---- mbq_unfinalized: when the closing fence of a multiline block quote (or multiline alert) arrives
+   only its last child is finalized; deeper blocks that are still open keep the end they were created
+   with, (start line, column 0) ---- *)
+Definition is_mbq (n : node) : bool :=
+  match nval n with MultilineBlockQuote _ _ | Alert _ => true | _ => false end.
+Definition cls_mbq (L : list srcline) (f : fail) : bool :=
+  negb (is_inline (f_node f)) && (ec (fsp f) =? 0) && (sl (fsp f) =? el (fsp f)) && existsb is_mbq (f_anc f).
+
+(* ---- thematic_break_in_container: handle_thematic_break sets the end column to the number of bytes
+   left after the container prefix (line.len() - 1 - offset) instead of the column of the last byte ---- *)
+Definition cls_hr (L : list srcline) (f : fail) : bool :=
+  match nval (f_node f), f_anc f with
+  | ThematicBreak, p :: _ => negb (match nval p with Document => true | _ => false end)
+  | _, _ => false
+  end.
+
+(* ---- table_empty_cell: a cell without content (adjacent pipes, or added because the row is short) has
+   no text of its own; it is reported as an inverted range (start = end + 1, or end column 0) ---- *)
+Definition cls_empty_cell (L : list srcline) (f : fail) : bool :=
+  match f_node f with
+  | Node TableCell sp [] => (sl sp =? el sp) && ((ec sp =? 0) || (ec sp + 1 =? sc sp))
+  | _ => false
+  end.
+
+(* ---- table_row_indent: every row is positioned from the start column of the TABLE (the header row's
+   indentation); a row that is indented differently gets columns shifted by the difference.
+   Predicate: the node is, or lies in, a TableRow on whose line the table's start column is not where the
+   row's text begins (blank there, or preceded by something other than blank or a quote marker) ---- *)
+Definition byte_at (L : list srcline) (ln c : N) : option byte :=
+  if c =? 0 then None else
+  match line_at L ln with Some l => nth_error (ln_body l) (N.to_nat (c - 1)) | None => None end.
+Definition is_row (n : node) : bool := match nval n with TableRow _ => true | _ => false end.
+Definition is_table (n : node) : bool := match nval n with Table _ => true | _ => false end.
+Definition row_misaligned (L : list srcline) (r t : node) : bool :=
+  let c := sc (nsp t) in let ln := sl (nsp r) in
+  match byte_at L ln c with
+  | None => true
+  | Some b => is_ws b ||
+    ((1 <? c) && match byte_at L ln (c - 1) with
+                 | Some p => negb (is_ws p || beqb p x3e)
+                 | None => false
+                 end)
+  end.
+Definition cls_row_indent (L : list srcline) (f : fail) : bool :=
+  match find is_row (f_node f :: f_anc f), find is_table (f_anc f) with
+  | Some r, Some t => row_misaligned L r t
+  | _, _ => false
+  end.
+
+(* ---- html_block_end_condition: an HTML block of type 1 to 5 is closed ON the line that meets its end
+   condition, but finalize gives it the end of the line before (line_number - 1): the block ends one
+   line early, and a one-line block ends before it starts ---- *)
+Definition cls_html_end (L : list srcline) (f : fail) : bool :=
+  match nval (f_node f) with
+  | HtmlBlock ty _ => (1 <=? ty) && (ty <=? 5)
+  | _ => false
+  end.
+
+(* ---- fenced_code_closed_by_container: a fenced code block that ends because its container ends gets the
+   end of the line that closed the container, which is not part of it (finalize: fenced => current line) ---- *)
+Definition cls_fence_container (L : list srcline) (f : fail) : bool :=
+  match nval (f_node f), f_anc f with
+  | CodeBlock cb, p :: _ =>
+    cb_fenced cb && is_N f && negb (lex_le (el (fsp f)) (ec (fsp f)) (el (nsp p)) (ec (nsp p)))
+  | _, _ => false
+  end.
+
+(* ---- empty_text: trailing blanks before a line break are removed from the text; when nothing is left an
+   empty Text node stays in the tree with start = end + 1 ---- *)
+Definition cls_empty_text (L : list srcline) (f : fail) : bool :=
+  match f_node f with
+  | Node (Text []) sp _ => (ec sp + 1 =? sc sp)
+  | _ => false
+  end.
+
+(* ---- multiline_inline_offset: adjust_node_newlines looks up the column offset of the line an inline ends
+   on with index (line - the INLINE's start line) instead of (line - the block's start line): a code span,
+   raw HTML or math inline that spans lines and does not start on the first line of its block takes the
+   offset of an earlier line ---- *)
+Definition cls_ml_inline (L : list srcline) (f : fail) : bool :=
+  match nval (f_node f) with
+  | Code _ _ | HtmlInline _ | Math _ _ _ =>
+    (sl (fsp f) <? el (fsp f)) &&
+    match nearest_block f with Some b => sl (nsp b) <? sl (fsp f) | None => false end
+  | _ => false
+  end.
+
+(* ---- description_list: the documentation says the description lists extension still has issues ---- *)
+Definition is_dl (n : node) : bool :=
+  match nval n with DescriptionList | DescriptionItem _ _ _ | DescriptionTerm | DescriptionDetails => true | _ => false end.
+Definition cls_dl (L : list srcline) (f : fail) : bool := existsb is_dl (f_node f :: f_anc f).
+
 Local Open Scope string_scope.
 Definition classes : list (string * (list srcline -> fail -> bool)) :=
   [ ("end_col_zero", cls_end_col_zero);
     ("bom_line1", cls_bom);
-    ("refdef_before_paragraph", cls_refdef) ].
+    ("refdef_before_paragraph", cls_refdef);
+    ("mbq_unfinalized", cls_mbq);
+    ("thematic_break_in_container", cls_hr);
+    ("table_empty_cell", cls_empty_cell);
+    ("table_row_indent", cls_row_indent);
+    ("html_block_end_condition", cls_html_end);
+    ("fenced_code_closed_by_container", cls_fence_container);
+    ("empty_text", cls_empty_text);
+    ("multiline_inline_offset", cls_ml_inline);
+    ("description_list", cls_dl) ].
 
-Definition classify (L : list srcline) (f : fail) : option string :=
+Definition classify1 (L : list srcline) (f : fail) : option string :=
   match find (fun c => snd c L f) classes with Some c => Some (fst c) | None => None end.
+
+(* A nesting failure is also excused when the PARENT's own position is in a class (its range cannot be
+   trusted), a sibling-order failure when the sibling before is. *)
+Definition as_bounds (n : node) (anc : list node) : fail := mkFail CBounds [] n anc None.
+Definition classify (L : list srcline) (f : fail) : option string :=
+  match classify1 L f with
+  | Some c => Some c
+  | None =>
+    match f_clause f, f_anc f, f_prev f with
+    | CNest, p :: anc, _ => classify1 L (as_bounds p anc)
+    | CSibling, _, Some a => classify1 L (as_bounds a (f_anc f))
+    | _, _, _ => None
+    end
+  end.
